@@ -278,4 +278,54 @@ theorem ghost_branches_unreachable (s : St) (h : Inv s) :
     rw [hA] at hlen; simp at hlen
     omega
 
+/-- a pending inserting `base` store of the owner belongs to put just before its unlock, targets the
+    slot below the logical base, and the slot store it is ordered after (FIFO) carries the same
+    element: when it drains, the slot it exposes holds the element inserted -/
+theorem owner_baseI (s : St) (h : Inv s) (v : Int) (e : Elem) (hm : Sto.baseI v e ∈ s.bufO) :
+    s.opc = .pt9 ∧ s.lock = .owner ∧ v = s.lb - 1 ∧ viewPtr s.bufO s.ptr v = some e := by
+  cases hpc : s.opc
+  case pt9 =>
+    have hl := h.lockO.2 (by simp [hpc, ownerLocked])
+    rcases (h.pt9 hpc).2 with ⟨e', h1⟩ | ⟨e', h1, h2⟩ | h1
+    · rw [h1] at hm ⊢; simp at hm; obtain ⟨rfl, rfl⟩ := hm; simp [viewPtr, hl]
+    · rw [h1] at hm ⊢; simp at hm; obtain ⟨rfl, rfl⟩ := hm; simp [viewPtr, hl, h2]
+    · rw [h1] at hm; simp at hm
+  all_goals (exfalso; cases h; simp only [hpc, ownerLocked, carry, resetting, ownerFlight] at *)
+  all_goals grind [CarryShape, Pu2Shape, PofShape, Po6Shape, Po8Shape, Po9Shape, InsShape]
+
+/-- the same for a passer: its pending inserting `base` store belongs to trypass just before its unlock -/
+theorem thief_baseI (s : St) (h : Inv s) (p : Pid) (v : Int) (e : Elem) (hm : Sto.baseI v e ∈ s.bufT p) :
+    (∃ ok, s.tpc p = .tp4 ok) ∧ s.lock = .thief p ∧ v = s.lb - 1 ∧ viewPtr (s.bufT p) s.ptr v = some e := by
+  cases hb : s.bufT p with
+  | nil => rw [hb] at hm; simp at hm
+  | cons st rest =>
+    obtain ⟨hl, hcase⟩ := thief_buf_shape s h p st rest hb
+    rw [hb] at hm
+    rcases hcase with ⟨b, _, rfl, rfl, _⟩ | ⟨_, rfl, rfl, _⟩ | ⟨e', _, rfl, rfl⟩ |
+      ⟨e', ok, hpc, rfl, rfl⟩ | ⟨e', ok, hpc, rfl, rfl, hp⟩
+    · simp at hm
+    · simp at hm
+    · simp at hm
+    · simp at hm; obtain ⟨rfl, rfl⟩ := hm; exact ⟨⟨ok, hpc⟩, hl, rfl, by simp [viewPtr]⟩
+    · simp at hm; obtain ⟨rfl, rfl⟩ := hm; exact ⟨⟨ok, hpc⟩, hl, rfl, by simp [viewPtr, hp]⟩
+
+/-- the overflow tests of put and trypass (`base == 0`) read the logical base -/
+theorem base_tests_logical (s : St) (h : Inv s) :
+    (∀ e, s.opc = .pt1 e → viewBase s.bufO s.base = s.lb) ∧
+    (∀ p e, s.tpc p = .tp1 e → viewBase (s.bufT p) s.base = s.lb) := by
+  refine ⟨?_, ?_⟩
+  · intro e hpc
+    have hl := h.lockO.2 (by simp [hpc, ownerLocked])
+    have htr : s.tr = false := by
+      cases ht : s.tr with
+      | false => rfl
+      | true => obtain ⟨q, hq⟩ := h.trn ht; rw [hl] at hq; cases hq
+    have := h.lbase (by simp [hpc, resetting])
+    rw [(h.pt1 e hpc).1, viewBase_nil, this]; simp [htr]
+  · intro p e hpc
+    have hl := (h.lockT p).2 (by simp [hpc, thiefLocked])
+    have htr := h.trF p hl (by simp [hpc, notTrans])
+    have := h.lbase (thief_not_resetting s h p hl)
+    rw [h.tbufE p (by simp [hpc, mayBuf]), viewBase_nil, this]; simp [htr]
+
 end MythVerif.WsqTso
